@@ -5,6 +5,8 @@ import (
 	"encoding/json"
 	"fmt"
 	"os"
+	"os/exec"
+	"sort"
 	"strings"
 	"sync"
 	"testing"
@@ -68,6 +70,21 @@ func TestRealProbe(t *testing.T) {
 	for _, kt := range []time.Duration{-1, 500 * time.Millisecond} {
 		jobs = append(jobs, job{fmt.Sprintf("orphan-holds-cmdsubst-pipe-killtimeout=%v", kt), `x=$(sh -c 'sleep 45 & wait')`, false, kt, max(kt, 0) + 20*time.Second})
 	}
+	// A script without a shebang line runs through the ENOEXEC fallback, in
+	// a nested Runner; the configured kill timeout must hold there too. The
+	// nested default is 2 s, so this case needs a tighter bound than the
+	// others: the kill timeout plus a margin scaled by how slow process
+	// creation is right now (at least 1.2 s), and three attempts.
+	if dir, err := os.MkdirTemp("", "verif-probe-"); err == nil {
+		defer os.RemoveAll(dir)
+		script := dir + "/noshebang"
+		os.WriteFile(script, []byte("sh -c \"trap '' INT TERM; exec sleep 30\"\n"), 0o755)
+		margin := 1200 * time.Millisecond
+		if m := 40 * spawnTime(); m > margin {
+			margin = m
+		}
+		jobs = append(jobs, job{"enoexec-script-child-ignores-sigint-killtimeout=100ms", script, false, 100 * time.Millisecond, 100*time.Millisecond + margin})
+	}
 	results := make([]ProbeResult, len(jobs))
 	var wg sync.WaitGroup
 	for i, j := range jobs {
@@ -75,10 +92,10 @@ func TestRealProbe(t *testing.T) {
 		go func() {
 			defer wg.Done()
 			var res ProbeResult
-			for attempt := 1; attempt <= 2; attempt++ {
+			for attempt := 1; attempt <= 3; attempt++ {
 				res = runRealProbe(j.name, j.prog, j.silentStdin, j.kt, j.bound)
 				res.Attempts = attempt
-				if res.OK || res.Class == "slow-after-cancel" {
+				if res.OK || (res.Class == "slow-after-cancel" && j.bound >= 10*time.Second) {
 					break
 				}
 			}
@@ -90,6 +107,18 @@ func TestRealProbe(t *testing.T) {
 	if err := os.WriteFile(out, b, 0o644); err != nil {
 		t.Fatal(err)
 	}
+}
+
+// spawnTime is the median time of starting and reaping a trivial process.
+func spawnTime() time.Duration {
+	var ds []time.Duration
+	for i := 0; i < 5; i++ {
+		t0 := time.Now()
+		exec.Command("true").Run()
+		ds = append(ds, time.Since(t0))
+	}
+	sort.Slice(ds, func(i, j int) bool { return ds[i] < ds[j] })
+	return ds[2]
 }
 
 func runRealProbe(name, prog string, silentStdin bool, killTimeout, bound time.Duration) ProbeResult {
